@@ -1193,6 +1193,7 @@ func ruleReaderAdvances(r *Run, p *Prog, rule string) {
 			continue
 		}
 		okAll, n := true, 0
+		ffBad := ""
 		// a path that delivers nothing leaves the read head where it is: stepping over an empty or
 		// stale slot walks past a position a producer fills later (never delivered, never counted)
 		nIdle, idleBad := 0, ""
@@ -1259,6 +1260,22 @@ func ruleReaderAdvances(r *Run, p *Prog, rule string) {
 			if !inc {
 				okAll = false
 			}
+			// every earlier store on the path (the fast-forward) puts the read head on the
+			// delivered bucket itself: it stores that bucket's seq, not a value computed from it
+			// (a helper returning seq+1 in front of the final increment overshoots by one, and the
+			// next message is taken for stale: neither delivered nor reported)
+			for _, in := range pa.Instrs() {
+				if st, ok := in.(*ssa.Store); ok && st.Val != last {
+					if fa, ok := st.Addr.(*ssa.FieldAddr); ok && fname(fieldVar(fa)) == "readIndex" {
+						if sv, _ := loadedField(st.Val); sv == nil || fname(sv) != "seq" {
+							ffBad = p.Pos(st.Pos())
+						}
+					}
+				}
+			}
+		}
+		if n > 0 {
+			r.Ob(rule, FnName(f)+"/fast-forward-lands-on-delivered", tern(ffBad != "", ffBad, p.Pos(f.Pos())), ffBad == "", true, tern(ffBad == "", "every store to readIndex before the final increment stores the delivered bucket's seq", "a delivering path moves readIndex to a value other than the delivered bucket's seq before the final increment: the read head ends beyond the position after the delivered message, and the message written there is taken for stale (neither delivered nor reported as dropped)"))
 		}
 		r.Ob(rule, FnName(f)+"/advances", p.Pos(f.Pos()), okAll && n > 0, true, tern(okAll && n > 0, fmt.Sprintf("%d delivering path(s): each ends with readIndex = readIndex + 1", n), "a path of TryNext delivers a message without finally advancing readIndex by one: the read head stays on the emptied slot and newer messages are never read (lost without an alert)"))
 	}
